@@ -272,7 +272,10 @@ def st_world(draw, prof: Optional[Dict[str, Any]] = None) -> Dict[str, Any]:
         "sites": sites,
         **({"site_coords": coords} if coords else {}),
         "sim": {"start_time": start, "timestep_duration_seconds": dt, "request_cancel_time_seconds": timeout,
-                "sim_h3_search_resolution": search_res},
+                "sim_h3_search_resolution": search_res,
+                # the location grid is configuration (default 15, ~1 m cells): profiles that ask for it also draw coarser grids, where a
+                # vehicle can be inside its destination's cell with road still ahead
+                **({"sim_h3_resolution": draw(st.sampled_from(p["h3_res"]))} if p.get("h3_res") else {})},
         "dispatcher": disp,
         "fleet_ids": fleet_ids,
         "vehicles": vehicles,
